@@ -25,20 +25,27 @@ ASSUME \A i \in 1..Len(AllLayouts) : \E p \in 1..5 : Lt(AllLayouts[i].a1[p], Zer
 
 \* replay of one stored scenario: the generated module defines Script (a sequence of action records as exported in the
 \* histories) and TLC recomputes the observables along exactly that history
-Do(e) == CASE e.n = "set_val" -> SetValScalar(e.c)
-           [] e.n = "set_val_arr" -> \E k \in 1..2 : Arr(k, Len(x)) = e.arr /\ SetValArr(k)
-           [] e.n = "set_val_idx" -> SetValIdx(e.idx, e.c)
+C(e) == <<e.c, e.ci>>
+Do(e) == CASE e.n = "set_val" -> SetValScalar(C(e))
+           [] e.n = "set_val_arr" -> \E k \in 1..3 : ArrC(k, Len(x)) = <<e.arr, e.arri>> /\ SetValArr(k)
+           [] e.n = "set_val_idx" -> SetValIdx(e.idx, C(e))
            [] e.n = "set_vec" -> SetVec(e.src)
            [] e.n = "iadd" -> IAdd(e.src)
            [] e.n = "isub" -> ISub(e.src)
-           [] e.n = "iadd_const" -> IAddConst(e.c)
-           [] e.n = "imul" -> IMul(e.c)
+           [] e.n = "iadd_const" -> IAddConst(C(e))
+           [] e.n = "imul" -> IMul(C(e))
+           [] e.n = "op_idx" -> OpIdx(e.op, e.idx, C(e))
            [] e.n = "imul_vec" -> IMulVec
-           [] e.n = "add_scal_vec" -> AddScalVec(e.c, e.src)
-           [] e.n = "set_name" -> SetName(e.var, e.via, e.whole)
-           [] e.n = "set_var" -> SetVarIdx(e.var, e.idx, e.flat)
+           [] e.n = "add_scal_vec" -> AddScalVec(C(e), e.src)
+           [] e.n = "set_name" -> SetName(e.var, e.via, e.whole, \E k \in DOMAIN e.valsi : e.valsi[k] # Zero)
+           [] e.n = "set_var" -> SetVarIdx(e.var, e.idx, e.flat, e.ci # Zero)
            [] e.n = "scale_to_norm" -> ScaleToNorm(e.mode)
            [] e.n = "scale_to_phys" -> ScaleToPhys
+           [] e.n = "cs_mode" -> CsSwitch(e.on)
 
-Export == Len(hist) = Depth => PrintT(<<"EXP", ToJson([ly |-> ly, kind |-> kind, x0 |-> X0(N(L)), y0 |-> y, h |-> hist])>>)
+\* the mode the history starts in (hist[1].cs is the mode AFTER the first action; only the switch changes the mode)
+CS0 == IF hist = <<>> THEN cs ELSE IF hist[1].a.n = "cs_mode" THEN ~hist[1].a.on ELSE hist[1].cs
+Export == Len(hist) = Depth => PrintT(<<"EXP", ToJson([ly |-> ly, kind |-> kind, alloc |-> alloc, cs0 |-> CS0, x0 |-> X0(N(L)),
+                                                         xi0 |-> IF alloc THEN XI0(N(L)) ELSE Fill(N(L), Zero), y0 |-> y, yi0 |-> yi,
+                                                         h |-> [k \in 1..Len(hist) |-> Observables(hist[k])]])>>)
 =============================================================================
